@@ -15,6 +15,7 @@
 (*   partial     it prints half a line without newline and stays alive     *)
 (*   closeout    it closes its stdout and stays alive                      *)
 (*   exitearly   it exits before printing anything                         *)
+(*   startfails  the runner's Start itself returns an error: no process    *)
 (* RetryLaunch = TRUE is the behaviour before the fix (a failed Start is    *)
 (* forgotten and the next call launches again); it exists to show that the *)
 (* model is sensitive.                                                     *)
@@ -23,7 +24,7 @@ EXTENDS Integers, Sequences, FiniteSets, TLC
 
 CONSTANTS Plan, MaxCalls, RetryLaunch
 
-Plans == {"ok", "badline", "silent", "partial", "closeout", "exitearly"}
+Plans == {"ok", "badline", "silent", "partial", "closeout", "exitearly", "startfails"}
 ASSUME Plan \in Plans
 
 VARIABLES
@@ -69,6 +70,9 @@ StartEffect(ok) ==
     /\ tmpdir' = "present" /\ tmpdirs' = tmpdirs + 1
     /\ IF Plan = "ok"
        THEN /\ ok = TRUE /\ addrSet' = TRUE /\ proc' = "alive" /\ UNCHANGED <<startErr, kills>>
+       ELSE IF Plan = "startfails"
+       THEN \* runner.Start failed: there is no process, nothing to kill; the error is remembered all the same
+            /\ ok = FALSE /\ startErr' = TRUE /\ UNCHANGED <<addrSet, kills, proc>>
        ELSE \* every failure after the launch kills what was launched, before Start returns
             /\ ok = FALSE /\ startErr' = TRUE /\ kills' = kills + 1
             /\ proc' = (IF Plan = "exitearly" THEN "dead" ELSE "quitting")
@@ -129,7 +133,8 @@ Kill ==
                   \* counts as failed (force kill of a dead process) or not is immaterial
                   kills' \in {kills, kills + 1} /\ UNCHANGED clientBuilt
              ELSE kills' = kills + 1 /\ UNCHANGED clientBuilt     \* never connected: force kill
-          /\ proc' = "dead" /\ waitDone' = TRUE /\ exitedFlag' = TRUE
+          /\ IF Plan = "startfails" THEN UNCHANGED <<proc, waitDone, exitedFlag>>     \* there never was a process to wait for
+             ELSE proc' = "dead" /\ waitDone' = TRUE /\ exitedFlag' = TRUE
           /\ tmpdir' = "removed" /\ runnerSet' = FALSE
   /\ killed' = TRUE
   /\ last' = <<"Kill", "done">>
@@ -158,9 +163,11 @@ Spec == Init /\ [][Next]_vars /\ WF_vars(ProcGone) /\ WF_vars(WaitMarkExited)
 LaunchAtMostOnce == launches <= 1 /\ tmpdirs <= 1
 NoLaunchAfterKill == [][(killed /\ launches >= 1) => launches' = launches]_vars
 \* C05: whenever a launch failed, the runner was told to kill the process
-FailedStartKills == startErr => kills >= 1
-FailedStartEndsProcess == startErr ~> (proc = "dead")
+FailedStartKills == (startErr /\ Plan # "startfails") => kills >= 1
+FailedStartEndsProcess == (startErr /\ Plan # "startfails") ~> (proc = "dead")
 \* C04/C05: after Kill the process is gone, observed, and the directory removed
-KillPost == (last = <<"Kill", "done">> /\ launches > 0) => (proc = "dead" /\ exitedFlag /\ tmpdir # "present" /\ ~runnerSet)
+KillPost == (last = <<"Kill", "done">> /\ launches > 0) =>
+              /\ tmpdir # "present" /\ ~runnerSet
+              /\ Plan # "startfails" => (proc = "dead" /\ exitedFlag)
 TypeOK == proc \in {"none", "alive", "quitting", "dead"} /\ tmpdir \in {"none", "present", "removed"}
 =============================================================================
